@@ -398,7 +398,7 @@ func (e *c16Enum) finish(t *testing.T) {
 var c16CartList = []uint8{0x00, 0x03, 0x13, 0x1b}
 
 func TestC16(t *testing.T) {
-	c := vf.New(t, "C16", "enumerations: every source page 00-F1 x cartridge types {00,03,13,1B} (cartridge RAM pages on 03/13) x pseudo-random source contents; a restart at every cycle 0..175 of a running transfer for six page pairs; "+
+	c := vf.New(t, "C16", "enumerations: every source page 00-F1 x cartridge types {00,03,13,1B} (cartridge RAM pages on 03/13) x pseudo-random source contents; a restart at every cycle 0..175 of a running transfer for ten page pairs (three: a page and its echo alias); "+
 		"a source byte modified at every cycle 0..175 for bytes {0,1,80,158,159} in VRAM, cartridge RAM, WRAM and echo sources; plus rapid cases (random page, contents, up to 6 restarts/modifications, tail). "+
 		"All of FE00-FEFF is read at every cycle: FF in cycles 2..160 of a transfer, source bytes (either value if modified within 2 cycles of the slot) from cycle 162. "+
 		"Plus rapid 'cpu-polling' cases on the whole machine: a guest program starts the transfer at a drawn point of an LCD line (LCD on in 4 of 5) and polls FE00-FEFF up to 70 times inside it; OAM must equal the source afterwards. "+
@@ -443,7 +443,7 @@ func TestC16(t *testing.T) {
 	c.Sub("restart-every-cycle", func(t *testing.T) {
 		en := c16NewEnum(c, "restart")
 		defer en.finish(t)
-		pairs := [][2]uint8{{0xc0, 0xc1}, {0xc0, 0x80}, {0x80, 0xe1}, {0xa0, 0x3f}, {0x40, 0xdf}, {0xf1, 0xc0}, {0xc3, 0xc3}}
+		pairs := [][2]uint8{{0xc0, 0xc1}, {0xc0, 0x80}, {0x80, 0xe1}, {0xa0, 0x3f}, {0x40, 0xdf}, {0xf1, 0xc0}, {0xc3, 0xc3}, {0xe3, 0xc3}, {0xc3, 0xe3}, {0xf1, 0xd1}} // the last three: a page and its echo alias (same bytes, different register value)
 		var n int64
 		idx := 0
 		for pi, p := range pairs {
@@ -471,7 +471,7 @@ func TestC16(t *testing.T) {
 			}
 		}
 		c.Bulk("restart", n, n)
-		c.Exhaustive("a second FF46 write at every cycle 0..175 after the first, seven source page pairs")
+		c.Exhaustive("a second FF46 write at every cycle 0..175 after the first, ten source page pairs (three of them a page and its echo alias)")
 	})
 
 	c.Sub("poke-every-cycle", func(t *testing.T) {
@@ -575,6 +575,17 @@ func c16GenCase(rt *rapid.T) c16Case {
 		if r.kind == 0 {
 			// restart after a gap
 			t += r.gap
+			if r.rel <= -4 {
+				// related to the page in progress: the same page again, or its echo alias (same bytes, other register value)
+				switch {
+				case r.rel == -4:
+					r.page = cur
+				case cur >= 0xc0 && cur <= 0xd1:
+					r.page = cur + 0x20
+				case cur >= 0xe0 && cur <= 0xf1:
+					r.page = cur - 0x20
+				}
+			}
 			cas.Evs = append(cas.Evs, c16Ev{At: t, K: "dma", Page: r.page})
 			start, cur = t, r.page
 			pages = append(pages, r.page)
